@@ -1467,7 +1467,14 @@ class scope(slots_getstate_setstate):
             elif name == "sequential_format":
                 sequential_format = value
                 if sequential_format is not None:
-                    assert isinstance(sequential_format % 0, str)
+                    try:
+                        formatted = sequential_format % 0
+                    except (TypeError, ValueError) as e:
+                        raise RuntimeError(
+                            f"Invalid .sequential_format: {e.__class__.__name__}: {e!s}"
+                            + words[0].where_str()
+                        )
+                    assert isinstance(formatted, str)
         setattr(self, name, value)
 
     def active_objects(self):
